@@ -17,23 +17,67 @@ import numpy as np
 
 from ..contracts import attach, detach_all, quiet
 from ..core import REPO, max_err
+from ..polyhard import cfg32, clear_caches, warm32, layouts, stack_layouts, is_c_contig, contig, coef_containers
+from ..util import precision
 
 RULE = ('one case = one coefficient set (class: dense / sparse single term at each position / length 1 / cosine-only / '
         'sine-only / sine without cosine partner / unequal radial lengths / m=1 with N>2 / no m=0 terms) x one '
         'coordinate-shape class x one parameter class, evaluated by the fast path and by the explicit sum; lstsq: one '
         'basis x one NaN/inf mask class x noiseless/noisy data; a case is non-trivial when at least one coefficient is '
-        'non-zero; distinct = distinct descriptor')
+        'non-zero; distinct = distinct descriptor. Hardening classes: fifteen fast paths (jacobi_sum_clenshaw for three (alpha, beta), clenshaw_qbfs, '
+        'the sag of compute_z_zprime_Qbfs / _Qcon, compute_z_zprime_Q2d with only m=0 / cosine m=1,2 / sine m=1,3 content, clenshaw_q2d m=1,2) x history '
+        'units (memo tables emptied where possible, {float32 short | float32 long | no} session under config.precision = 32, then sums of 3,6,19,42,18,4,41,1,2 '
+        'coefficients or the reverse) x aliasing (ONE coefficient object - float64 ndarray, strided ndarray, list, tuple, numpy floats - through every '
+        'fast path in turn and then as the weight vector of sum_of_2d_modes, each result against the explicit sum with the PRISTINE coefficients; '
+        'arguments must be left intact) x containers (+ float32 ndarray at single-precision tolerance, integer ndarray) x memory layouts (lstsq and '
+        'sum_of_2d_modes with Fortran / transposed / strided / windowed data and mode stacks, lists of such arrays, weights as list / tuple / strided / '
+        'float32 / int; evaluators with non-C-contiguous coordinates) x config.precision = 32 x caller-provided alphas= work arrays x sums of 19, 41, 60 '
+        '(thorough: to 150) coefficients, dense and sparse; lstsq / sum_of_2d_modes repeated on the same objects incl. 16x1, 2x40, 1x24 shapes')
 ASSUMPTIONS = ['the single-mode routines (jacobi, Qbfs, Qcon, Q2d, zernike_nm) define the modes (their values are C07)',
                'float64 accumulation of <= 40 terms is exact to 1e-13 relative to sum |c_k| sup|mode_k|',
                'numpy.linalg (qr, solve, matrix_rank, cond) is the trusted base for the least-squares oracle',
-               'tolerance 1e-10 * sum|c_k| sup|mode_k| for sums (float32 input: 2e-4); 1e-8 * cond * |c| for fits']
-REQUIRED = ['sum_of_2d_modes', 'jacobi_sum_clenshaw', 'clenshaw_qbfs', 'compute_z_zprime_Qbfs.sag',
+               'tolerance 1e-10 * sum|c_k| sup|mode_k| for sums, times (terms/20)^2 beyond 20 terms (measured round-off of the 2-D Q '
+               'recurrences: 1e-13 at 41 terms, 5e-12 at 150); float32 data / coefficients or config.precision = 32: 1e-3 (sums of <= 12 '
+               'terms, observed 1e-6), 2e-4 for sum_of_2d_modes and lstsq; 1e-8 * cond * |c| for fits',
+               'caller-provided work arrays (alphas=) are zero-initialised with the documented shape, as _initialize_alphas makes them',
+               'a coefficient vector may be any sequence of real numbers (list, tuple, ndarray of a floating or integer dtype, numpy scalars)']
+REQUIRED = ['alias.arguments-intact', 'sum_of_2d_modes', 'jacobi_sum_clenshaw', 'clenshaw_qbfs', 'compute_z_zprime_Qbfs.sag',
             'compute_z_zprime_Qcon.sag', 'compute_z_zprime_Q2d.sag', 'Q2d_nm_c_to_a_b.structure',
             'Q2d_nm_c_to_a_b->compute_z_zprime_Q2d', 'lstsq.solution', 'lstsq.recovers-synthesis',
             'lstsq.ignores-exactly-nonfinite', 'pvr.consumer']
 
 CTX = None
 RTOL = 1e-10
+RTOL32 = 1e-3        # single-precision class (float32 data / coefficients or config.precision = 32), sums of <= 12 terms: observed <= 1e-6
+HISTORY = [None]     # class label of the history the workload is in (set by the history units), for mechanism keys
+ORIG = {}
+
+
+def lowp(*objs):
+    """Single-precision class: a float32 array among the arguments or prysm configured with precision = 32."""
+    return cfg32() or any(getattr(o, 'dtype', None) == np.float32 for o in objs)
+
+
+def mechanism(recheck, arrays):
+    """Mechanism class of a failure, found by re-running the ORIGINAL routine quietly: memory-layout (right for C-contiguous private
+    copies of the array arguments), not-repeatable (right when the same call is made again), history-dependent[:<class>] (right once
+    the memoised recurrence coefficients have been emptied), '' otherwise."""
+    if recheck is None:
+        return ''
+    try:
+        with quiet(), np.errstate(all='ignore'):
+            flat = []
+            for a in arrays:
+                flat += list(a) if isinstance(a, (list, tuple)) else [a]
+            if recheck(None):
+                return 'not-repeatable'
+            if any(not is_c_contig(a) for a in flat) and recheck(contig):
+                return 'memory-layout'
+            if clear_caches() and recheck(None):
+                return 'history-dependent' + (':' + HISTORY[0] if HISTORY[0] else '')
+    except Exception:  # noqa
+        pass
+    return ''
 
 
 def case_rng(*labels):
@@ -119,9 +163,20 @@ def margin(monitor, got, ref, tol):
     CTX.event(f'margin:{monitor}:err/tol in ' + ('(1e-3,1e-2]' if r <= 1e-2 else '(1e-2,1e-1]' if r <= 1e-1 else '(1e-1,1]'))
 
 
-def compare(monitor, got, ref, scale, key, what, desc, rtol=RTOL, **detail):
+def compare(monitor, got, ref, scale, key, what, desc, rtol=RTOL, recheck=None, arrays=(), **detail):
+    """recheck(transform) -> True when the ORIGINAL routine, called again (on transformed array arguments), is right."""
     margin(monitor, got, ref, rtol * scale)
+    g, r = np.asarray(got), np.asarray(ref)
+    if recheck is not None and g.shape == r.shape and not max_err(g, r) <= 1e-300 + rtol * scale:
+        mech = mechanism(recheck, arrays)
+        if mech:
+            key = key + '/' + mech
     return CTX.close(monitor, got, ref, key, what, desc, rtol=rtol, atol=1e-300, scale=scale, **detail)
+
+
+def ok_close(got, ref, scale, rtol=RTOL):
+    g, r = np.asarray(got), np.asarray(ref)
+    return g.shape == r.shape and max_err(g, r) <= 1e-300 + rtol * scale
 
 
 def lenclass(n):
@@ -142,7 +197,7 @@ def post_sum_of_2d_modes(token, args, kwargs, result):
         return
     if not (np.all(np.isfinite(w))):
         return
-    f32 = M.dtype in (np.float32, np.complex64)
+    f32 = M.dtype in (np.float32, np.complex64) or cfg32()
     acc = np.zeros(M.shape[1:], dtype=complex if M.dtype.kind == 'c' or w.dtype.kind == 'c' else float)
     scale = 0.0
     for k in range(M.shape[0]):
@@ -150,8 +205,12 @@ def post_sum_of_2d_modes(token, args, kwargs, result):
         scale += abs(w[k]) * sup(M[k])
     desc = {'fn': 'sum_of_2d_modes', 'k': int(M.shape[0]), 'shape': list(M.shape[1:]), 'dtype': str(M.dtype),
             'class': f'sum_of_2d_modes:{"k=1" if M.shape[0] == 1 else "k>=2"}:{M.dtype}'}
+    def recheck(tr):
+        m2 = modes if tr is None else ([tr(np.asarray(v)) for v in modes] if isinstance(modes, (list, tuple)) else tr(np.asarray(modes)))
+        w2 = weights if tr is None else (tr(weights) if isinstance(weights, np.ndarray) else weights)
+        return ok_close(ORIG['sum_of_2d_modes'](m2, w2), acc, scale, 2e-4 if f32 else RTOL)
     compare('sum_of_2d_modes', result, acc, scale, 'C10/sum_of_2d_modes' + ('/f32' if f32 else ''),
-            'sum_of_2d_modes != explicit sum of weight*mode', desc, rtol=2e-4 if f32 else RTOL)
+            'sum_of_2d_modes != explicit sum of weight*mode', desc, rtol=2e-4 if f32 else RTOL, recheck=recheck, arrays=[modes, weights])
 
 
 def ls_oracle(modes, data):
@@ -193,23 +252,42 @@ def post_lstsq(token, args, kwargs, result):
     if cond > 1e6:
         CTX.skip('lstsq:ill-conditioned(cond>1e6)')
         return
-    f32 = M.dtype == np.float32 or d.dtype == np.float32
+    f32 = M.dtype == np.float32 or d.dtype == np.float32 or cfg32()
     desc = {'fn': 'lstsq', 'k': int(M.shape[0]), 'shape': list(d.shape), 'valid': int(A.shape[0]), 'cond': cond,
             'class': f'lstsq:contract:{"all-finite" if A.shape[0] == d.size else "masked"}'}
     rt = (2e-4 if f32 else 1e-8) * max(cond, 1.0)
     # residual-aware scale: perturbation theory for LS adds cond^2 * |r|/|A||c|; keep noisy fits modest in cond
     r = A @ c - b
     extra = (cond ** 2) * 1e-13 * (np.linalg.norm(r) / max(np.linalg.norm(A, 2), 1e-300))
-    CTX.close('lstsq.solution', np.asarray(result), c, 'C10/lstsq/solution' + ('/f32' if f32 else ''),
-              'lstsq != least-squares solution on exactly the finite samples', desc, rtol=rt, atol=extra + 1e-300,
+    key = 'C10/lstsq/solution' + ('/f32' if f32 else '')
+    tol = extra + 1e-300 + rt * max(sup(c), 1e-300)
+    got = np.asarray(result)
+    if got.shape == c.shape and not max_err(got, c) <= tol:
+        def recheck(tr):
+            m2 = modes if tr is None else ([tr(np.asarray(v)) for v in modes] if isinstance(modes, (list, tuple)) else tr(np.asarray(modes)))
+            d2 = data if tr is None else tr(np.asarray(data))
+            g2 = np.asarray(ORIG['lstsq'](m2, d2))
+            return g2.shape == c.shape and max_err(g2, c) <= tol
+        mech = mechanism(recheck, [modes, data])
+        if mech:
+            key = key + '/' + mech
+    CTX.close('lstsq.solution', got, c, key, 'lstsq != least-squares solution on exactly the finite samples', desc, rtol=rt, atol=extra + 1e-300,
               scale=max(sup(c), 1e-300))
 
 
 def install():
     import importlib
     P = importlib.import_module('prysm.polynomials')
+    ORIG.update(sum_of_2d_modes=P.sum_of_2d_modes, lstsq=P.lstsq)
     attach(P, 'sum_of_2d_modes', post=post_sum_of_2d_modes)
     attach(P, 'lstsq', post=post_lstsq)
+
+
+def install_monitors(ctx):
+    """Attach the call-level contracts for vp/pytest_monitors.py (the repository's own tests as traffic)."""
+    global CTX
+    CTX = ctx
+    install()
 
 
 # ------------------------------------------------------------------------------------------ workload: 1-index sums
@@ -229,7 +307,7 @@ def coef_sets(rng, nmax, quick):
             v = [0.0] * L
             v[pos] = float(rng.normal()) or 1.0
             out.append(('sparse-single', v))
-    lens = [2, 3, 4, 5, 8, nmax] if quick else [2, 3, 4, 5, 6, 8, 12, 20, 25, nmax]
+    lens = [2, 3, 4, 5, 8, nmax] if quick else [2, 3, 4, 5, 6, 8, 12, 17, 18, 20, 25, 40, 41, nmax]
     for L in lens:
         out.append(('dense', [float(v) for v in rng.normal(size=L)]))
     for L in (5, 9, nmax):
@@ -241,7 +319,7 @@ def coef_sets(rng, nmax, quick):
 
 def run_jacobi(ctx, counter):
     from prysm.polynomials import jacobi, jacobi_sum_clenshaw
-    nmax = ctx.pick(12, 30)
+    nmax = ctx.pick(12, 60)
     params = [(-0.5, -0.5), (0.5, 0.5), (-0.5, 0.5), (0.5, -0.5), (0, 0), (0, 4), (0.3, -0.3), (-0.3, -0.7), 'rand', 'rand']
     for pi, par in enumerate(params):
         rng0 = case_rng('jac-sets', pi)
@@ -270,7 +348,7 @@ def run_jacobi(ctx, counter):
 def run_qbfs_qcon(ctx, counter):
     from prysm.polynomials import Qbfs, Qcon
     from prysm.polynomials.qpoly import clenshaw_qbfs, compute_z_zprime_Qbfs, compute_z_zprime_Qcon
-    nmax = ctx.pick(12, 30)
+    nmax = ctx.pick(12, 60)
     rng0 = case_rng('q-sets')
     for si, (sl, s) in enumerate(coef_sets(rng0, nmax, ctx.quick)):
         counter[0] += 1
@@ -407,7 +485,7 @@ def run_q2d(ctx, counter):
     from prysm.polynomials import Q2d
     from prysm.polynomials.qpoly import Q2d_nm_c_to_a_b, compute_z_zprime_Q2d
     nmax = ctx.pick(12, 30)
-    reps = ctx.pick(8, 60)
+    reps = ctx.pick(8, 240)
     for rep in range(reps):
         rng0 = case_rng('q2d-sets', rep)
         for si, (label, nms, coefs) in enumerate(q2d_term_sets(rng0, nmax, ctx.quick)):
@@ -489,10 +567,10 @@ def masks(rng, shape):
 
 def run_lstsq(ctx, counter):
     from prysm import polynomials as P
-    shapes = [(8, 9), (12, 12), (5, 16), (1, 24)] if ctx.quick else [(8, 9), (12, 12), (5, 16), (1, 24), (24, 17), (33, 32), (16, 1)]
+    shapes = [(8, 9), (12, 12), (5, 16), (1, 24)] if ctx.quick else [(8, 9), (12, 12), (5, 16), (1, 24), (24, 17), (33, 32), (16, 1), (64, 65), (3, 200), (128, 4)]
     kinds = ['zernike', 'q2d', 'legendre-xy', 'single']
     fills = ['nan', '+inf', '-inf', 'mixed']
-    reps = ctx.pick(4, 24)
+    reps = ctx.pick(4, 48)
     for rep in range(reps):
         for shi, shape in enumerate(shapes):
             for kind in kinds:
@@ -576,7 +654,7 @@ def run_pvr(ctx, counter):
     """Consumer: Interferogram.pvr calls lstsq and sum_of_2d_modes; the contracts judge those calls."""
     from prysm.interferogram import Interferogram, fit_plane
     from prysm.coordinates import make_xy_grid
-    sizes = [16, 21] if ctx.quick else [16, 21, 32, 47]
+    sizes = [16, 21] if ctx.quick else [16, 21, 32, 47, 64, 101, 128]
     for si, n in enumerate(sizes):
         for ml in ('none', 'dropouts'):
             counter[0] += 1
@@ -601,18 +679,363 @@ def run_pvr(ctx, counter):
                 fit_plane(x, y, data)
 
 
+# ------------------------------------------------------------------------------------------ hardening classes (HARDENING.md A-D)
+HIST_VARIANTS = ('f32-low-orders-then-f64', 'f32-high-orders-then-f64', 'f64-short-then-long', 'f64-long-then-short')
+
+
+def paths():
+    """label -> (fast(coefs, u) -> surface on the radial points u in [0,1], mode(k, u), azimuthal class)."""
+    from prysm.polynomials import jacobi, Qbfs, Qcon, Q2d, jacobi_sum_clenshaw
+    from prysm.polynomials.qpoly import clenshaw_qbfs, compute_z_zprime_Qbfs, compute_z_zprime_Qcon, compute_z_zprime_Q2d, clenshaw_q2d
+    T = 0.6
+
+    def q2d_m(m, sine):
+        def fast(c, u):
+            ams = [[] for _ in range(m)]
+            bms = [[] for _ in range(m)]
+            (bms if sine else ams)[m - 1] = c
+            return compute_z_zprime_Q2d([], ams, bms, u, np.zeros(np.shape(u)) + T)[0]
+        return fast, (lambda k, u: Q2d(k, -m if sine else m, u, np.zeros(np.shape(u)) + T)), 'm!=0'
+
+    def cq2d(m):
+        def fast(c, u):
+            al = clenshaw_q2d(c, m, u * u)
+            S = 0.5 * al[0]
+            if m == 1 and len(c) > 3:
+                S = S - 2 / 5 * al[3]
+            return S * u ** m
+        return fast, (lambda k, u: Q2d(k, m, u, np.zeros(np.shape(u)))), 'm!=0'
+    return {
+        'jacobi_sum_clenshaw(0.25,-0.25)': (lambda c, u: jacobi_sum_clenshaw(c, 0.25, -0.25, 2 * u - 1), lambda k, u: jacobi(k, 0.25, -0.25, 2 * u - 1), 'jacobi'),
+        'jacobi_sum_clenshaw(0.25,0.75)': (lambda c, u: jacobi_sum_clenshaw(c, 0.25, 0.75, 2 * u - 1), lambda k, u: jacobi(k, 0.25, 0.75, 2 * u - 1), 'jacobi'),
+        'jacobi_sum_clenshaw(0,4)': (lambda c, u: jacobi_sum_clenshaw(c, 0, 4, x=2 * u - 1), lambda k, u: jacobi(k, 0, 4, 2 * u - 1), 'jacobi'),
+        'clenshaw_qbfs': (lambda c, u: clenshaw_qbfs(c, u * u), lambda k, u: Qbfs(k, u), 'm=0'),
+        'compute_z_zprime_Qbfs': (lambda c, u: compute_z_zprime_Qbfs(c, u, u * u)[0], lambda k, u: Qbfs(k, u), 'm=0'),
+        'compute_z_zprime_Qcon': (lambda c, u: compute_z_zprime_Qcon(c, u, u * u)[0], lambda k, u: Qcon(k, u), 'jacobi'),
+        'compute_z_zprime_Q2d:cm0': (lambda c, u: compute_z_zprime_Q2d(c, [], [], u, np.zeros(np.shape(u)) + T)[0], lambda k, u: Qbfs(k, u), 'm=0'),
+        'compute_z_zprime_Q2d:a1': q2d_m(1, False), 'compute_z_zprime_Q2d:b1': q2d_m(1, True),
+        'compute_z_zprime_Q2d:a2': q2d_m(2, False), 'compute_z_zprime_Q2d:b3': q2d_m(3, True),
+        'compute_z_zprime_Q2d:a4': q2d_m(4, False), 'compute_z_zprime_Q2d:b5': q2d_m(5, True),      # m > 3: the general branch of abc_q2d_clenshaw
+        'clenshaw_q2d:m=1': cq2d(1), 'clenshaw_q2d:m=2': cq2d(2),
+    }
+
+
+def fn_of(label):
+    return label.split(':')[0].split('(')[0]
+
+
+def path_check(ctx, label, fast, mode, cobj, c0, u, u0, desc, keytail, f32=False, coefs_as='list', az=''):
+    """fast(cobj, u) against the explicit sum of the PRISTINE coefficients c0 over the single-mode routine at the pristine points u0."""
+    fn = fn_of(label)
+    L = len(c0)
+    # round-off of the downward recurrences grows with the number of terms (2-D Q: ~quadratically; measured 1e-13 of scale at 41
+    # terms, 8e-13 at 60, 5e-12 at 150): keep three decades of head-room for sums longer than 20 terms
+    rt = (RTOL32 if f32 else RTOL) * max(1.0, (L / 20.0) ** 2)
+    with guard(fn, desc, lenclass(L), [lenclass(L), 'list-len1'] if L == 1 else [lenclass(L)]):
+        got = fast(cobj, u)
+        with quiet():
+            ref, scale = explicit_sum(c0, lambda k: mode(k, u0))
+
+        def recheck(tr):
+            return ok_close(fast(cobj, u if tr is None else tr(u)), ref, scale, rt)
+        mon = {'jacobi_sum_clenshaw': 'jacobi_sum_clenshaw', 'clenshaw_qbfs': 'clenshaw_qbfs', 'compute_z_zprime_Qbfs': 'compute_z_zprime_Qbfs.sag',
+               'compute_z_zprime_Qcon': 'compute_z_zprime_Qcon.sag', 'compute_z_zprime_Q2d': 'compute_z_zprime_Q2d.sag', 'clenshaw_q2d': 'compute_z_zprime_Q2d.sag'}[fn]
+        key = f'C10/{fn}/{keytail}' + ('/f32' if f32 else '')
+        if coefs_as not in ('list', None) and not ok_close(got, ref, scale, rt):
+            with quiet(), np.errstate(all='ignore'):
+                try:
+                    if ok_close(fast([float(v) for v in c0], u0), ref, scale, rt):
+                        key = f'C10/fast-sum/coefs-as-{coefs_as}/{az}'      # right for the same values as a list of python floats
+                except Exception:  # noqa
+                    pass
+        compare(mon, got, ref, scale, key, f'{fn} != explicit sum of coefficient * mode', desc, rtol=rt, recheck=recheck, arrays=[u])
+
+
+def alias_coefs(ctx):
+    """Class A: ONE coefficient object (float64 ndarray, strided ndarray, list, tuple, numpy floats) handed to every fast path in turn
+    and then to sum_of_2d_modes as the weight vector; each result is judged against the explicit sum with the PRISTINE coefficients,
+    so a routine that writes into np.asarray(coefs) is seen by the next call (the first call alone is exact by construction)."""
+    from prysm import polynomials as P
+    rng = case_rng('alias-coefs')
+    PT = paths()
+    order = ['clenshaw_qbfs', 'compute_z_zprime_Qbfs', 'compute_z_zprime_Qcon', 'jacobi_sum_clenshaw(0,4)', 'compute_z_zprime_Q2d:cm0', 'compute_z_zprime_Q2d:a1',
+             'clenshaw_q2d:m=2', 'compute_z_zprime_Q2d:b3', 'clenshaw_qbfs', 'jacobi_sum_clenshaw(0.25,-0.25)', 'compute_z_zprime_Qbfs', 'clenshaw_q2d:m=1', 'compute_z_zprime_Qcon']
+    for L in (1, 2, 5, 9):
+        c0 = [float(v) for v in rng.normal(size=L)]
+        for cls, cobj, exact in coef_containers(c0, include_low_precision=False):
+            u0 = np.array([0.0, 0.21875, 0.53125, 0.84375, 1.0])
+            u = u0.copy()
+            for step, label in enumerate(order):
+                fast, mode, az = PT[label]
+                desc = {'fn': fn_of(label), 'path': label, 'len': L, 'coefs_as': cls, 'step': step, 'class': f'{fn_of(label)}:shared-coefficients:{cls}'}
+                ctx.case(desc)
+                path_check(ctx, label, fast, mode, cobj, c0, u, u0, desc, 'after-call-sharing-coefficients')
+            # the same object as the weight vector of sum_of_2d_modes and as lstsq's data companion
+            with quiet():
+                modes = np.array([np.asarray(PT['clenshaw_qbfs'][1](k, u0.reshape(1, -1) * np.ones((3, 1))), dtype=float) for k in range(L)])
+            desc = {'fn': 'sum_of_2d_modes', 'len': L, 'coefs_as': cls, 'class': f'sum_of_2d_modes:shared-coefficients:{cls}'}
+            ctx.case(desc)
+            with guard('sum_of_2d_modes', desc, cls):
+                for _ in range(2):
+                    got = P.sum_of_2d_modes(modes, cobj)
+                    ref, scale = explicit_sum(c0, lambda k: modes[k])
+                    compare('sum_of_2d_modes', got, ref, scale, 'C10/sum_of_2d_modes/after-call-sharing-coefficients',
+                            'sum_of_2d_modes != explicit sum with the weights the caller passed (the weight object was handed to earlier calls)', desc)
+            ok = np.array_equal(np.asarray(cobj, dtype=float), np.asarray(c0)) and np.array_equal(u, u0)
+            ctx.require('alias.arguments-intact', ok, 'C10/arguments-modified/coefficients-or-coordinates',
+                        'a fast summation path modified the coefficient vector or the coordinate array it was given', {'len': L, 'coefs_as': cls, 'class': f'arguments-intact:{cls}'})
+
+
+def container_units(ctx):
+    """Class A, containers of the coefficient vector for every fast path (list, tuple, float64 ndarray, strided ndarray, numpy floats,
+    float32 ndarray at single-precision tolerance, integer ndarray with integer-valued coefficients)."""
+    rng = case_rng('containers')
+    PT = paths()
+    for L in (1, 4, 9):
+        c0 = [float(v) for v in rng.normal(size=L)]
+        ci = [float(v) for v in rng.integers(-3, 4, size=L)]
+        if not any(ci):
+            ci[-1] = 2.0
+        u = np.array([0.0, 0.21875, 0.53125, 0.84375, 1.0])
+        for label, (fast, mode, az) in PT.items():
+            conts = coef_containers(c0) + [('int-ndarray', np.array(ci, dtype=np.int64), True), ('int-ndarray', np.array(ci, dtype=np.int32), True)]
+            for cls, cobj, exact in conts:
+                cc = ci if cls.startswith('int') else c0
+                desc = {'fn': fn_of(label), 'path': label, 'len': L, 'coefs_as': cls, 'dtype': str(getattr(cobj, 'dtype', '')), 'class': f'{fn_of(label)}:coefs-as-{cls}'}
+                ctx.case(desc, nontrivial=any(cc))
+                path_check(ctx, label, fast, mode, cobj, cc, u, u, desc, lenclass(L), f32=not exact, coefs_as=cls, az=az)
+
+
+def layout_units(ctx):
+    """Class A, memory layout: lstsq and sum_of_2d_modes with data / mode stacks that are Fortran-ordered, transposed views, strided
+    slices, windows, lists of such arrays (the contracts judge; a failure that disappears for C-contiguous copies is keyed
+    .../memory-layout); the evaluators with non-C-contiguous coordinate arrays."""
+    from prysm import polynomials as P
+    rng = case_rng('layouts')
+    for shape, kind in (((5, 7), 'legendre-xy'), ((6, 6), 'zernike'), ((4, 9), 'q2d')):
+        with quiet():
+            modes = np.asarray(basis(rng, kind, shape), dtype=float)
+        k = modes.shape[0]
+        c = rng.normal(size=k)
+        synth = np.tensordot(c, modes, axes=(0, 0))
+        for ml, mask in (('none', np.zeros(shape, bool)), ('interior-dropouts', rng.random(shape) < 0.15)):
+            data = synth.copy()
+            data[mask] = np.nan
+            cref, ok, cond, A, b = ls_oracle(modes, data)
+            if not ok or cond > 1e6:
+                ctx.skip('lstsq:rank-deficient-or-ill-conditioned-on-valid-samples')
+                continue
+            SL = stack_layouts(modes)
+            DL = layouts(data)
+            for a, (sl, mo) in enumerate(SL):
+                for b_, (dl, d) in enumerate(DL):
+                    if a and b_ and (a + b_) % 2:
+                        continue
+                    desc = {'fn': 'lstsq', 'basis': kind, 'shape': shape, 'mask': ml, 'modes_as': sl, 'data_layout': dl, 'class': f'lstsq:layout:{sl}:{dl}'}
+                    ctx.case(desc)
+                    with guard('lstsq', desc, 'masked' if mask.any() else 'all-finite'):
+                        chat = P.lstsq(mo, d)
+                        ctx.close('lstsq.recovers-synthesis', chat, c, 'C10/lstsq/recovers-synthesis' + ('' if (sl.endswith('-C') and dl == 'C') else '/memory-layout'),
+                                  'lstsq(modes, sum c_k mode_k with non-finite samples) != c', desc, rtol=1e-8 * max(cond, 1.0), atol=1e-300, scale=sup(c))
+        for sl, mo in stack_layouts(modes):
+            for wl, w in (('ndarray', c.copy()), ('list', list(c)), ('tuple', tuple(c)), ('strided', np.repeat(c, 2)[::2]), ('f32', c.astype(np.float32)),
+                          ('int', np.arange(1, k + 1)), ('reversed-view', c[::-1].copy()[::-1])):
+                desc = {'fn': 'sum_of_2d_modes', 'basis': kind, 'shape': shape, 'modes_as': sl, 'weights_as': wl, 'class': f'sum_of_2d_modes:layout:{sl}:{wl}'}
+                ctx.case(desc)
+                with guard('sum_of_2d_modes', desc, sl):
+                    P.sum_of_2d_modes(mo, w)
+    PT = paths()
+    c0 = [float(v) for v in rng.normal(size=6)]
+    ub = np.asarray(0.02 + 0.96 * rng.random((3, 4)))
+    for lab, uv in layouts(ub) + [('1d-' + l, v) for l, v in layouts(ub.ravel()[:7])]:
+        if lab == 'C':
+            continue
+        for label, (fast, mode, az) in PT.items():
+            desc = {'fn': fn_of(label), 'path': label, 'len': 6, 'layout': lab, 'class': f'{fn_of(label)}:layout:{lab}'}
+            ctx.case(desc)
+            path_check(ctx, label, fast, mode, c0, c0, uv, uv, desc, 'len>=2')
+
+
+def history_units(ctx, variant):
+    """Class B/C/D: memo tables emptied (where possible), optional float32 session under config.precision = 32, then short sums, sums
+    of >= 18 and >= 40 coefficients for the same (alpha, beta) / m, then short ones again - every result against the explicit sum."""
+    rng = case_rng('history', variant)
+    PT = paths()
+    u = np.array([0.0, 0.21875, 0.53125, 0.84375, 1.0])
+    u32 = u[1:4].astype(np.float32)
+    lens = [3, 6, 19, 42, 18, 4, 41, 1, 2] if variant != 'f64-long-then-short' else [42, 19, 41, 18, 6, 3, 1, 4, 2]
+    HISTORY[0] = variant
+    try:
+        clear_caches()
+        if variant.startswith('f32'):
+            L = 6 if 'low' in variant else 42
+            c32 = [float(v) for v in rng.normal(size=L)]
+            warm32(*[lambda fast=fast: fast(c32, u32) for fast, mode, az in PT.values()], *[lambda mode=mode: mode(L - 1, u32) for fast, mode, az in PT.values()])
+        for step, L in enumerate(lens):
+            c0 = [float(v) for v in rng.normal(size=L)]
+            for label, (fast, mode, az) in PT.items():
+                if L > 30 and label in ('compute_z_zprime_Q2d:b1', 'jacobi_sum_clenshaw(0.25,0.75)'):
+                    continue
+                desc = {'fn': fn_of(label), 'path': label, 'len': L, 'step': step, 'variant': variant, 'class': f'{fn_of(label)}:history:{variant}'}
+                ctx.case(desc)
+                path_check(ctx, label, fast, mode, c0 if step % 2 else np.array(c0), c0, u, u, desc, lenclass(L))
+    finally:
+        HISTORY[0] = None
+
+
+def cfg32_units(ctx):
+    """Class C: config.precision = 32 - every fast path with float32 and float64 coordinates, list and float32-array coefficients
+    (<= 12 terms), sum_of_2d_modes / lstsq with float32 and float64 data; single-precision tolerances."""
+    from prysm import polynomials as P
+    rng = case_rng('cfg32')
+    PT = paths()
+    with precision(32):
+        for L in (1, 2, 5, 9, 12):
+            c0 = [float(v) for v in rng.normal(size=L)]
+            for xcls, mk in (('f32', lambda a: a.astype(np.float32)), ('f64', lambda a: a)):
+                u = mk(np.array([0.0, 0.21875, 0.53125, 0.84375, 1.0]))
+                for ccls, cobj in (('list', c0), ('ndarray-f32', np.array(c0, dtype=np.float32)), ('ndarray-f64', np.array(c0))):
+                    for label, (fast, mode, az) in PT.items():
+                        desc = {'fn': fn_of(label), 'path': label, 'len': L, 'x': xcls, 'coefs_as': ccls, 'class': f'{fn_of(label)}:precision=32:{xcls}:{ccls}'}
+                        ctx.case(desc)
+                        path_check(ctx, label, fast, mode, cobj, c0, u, u.astype(np.float64), desc, lenclass(L), f32=True)
+        for shape, kind in (((8, 9), 'zernike'), ((5, 16), 'legendre-xy')):
+            with quiet():
+                modes = np.asarray(basis(rng, kind, shape), dtype=float)
+            k = modes.shape[0]
+            c = rng.normal(size=k)
+            for dcls, mk in (('f32', lambda a: a.astype(np.float32)), ('f64', lambda a: a)):
+                desc = {'fn': 'sum_of_2d_modes', 'basis': kind, 'shape': shape, 'x': dcls, 'class': f'sum_of_2d_modes:precision=32:{dcls}'}
+                ctx.case(desc)
+                with guard('sum_of_2d_modes', desc, dcls):
+                    synth = P.sum_of_2d_modes(mk(modes), mk(c))
+                data = np.array(synth, dtype=mk(c).dtype)
+                data[rng.random(shape) < 0.1] = np.nan
+                desc = {'fn': 'lstsq', 'basis': kind, 'shape': shape, 'x': dcls, 'class': f'lstsq:precision=32:{dcls}'}
+                ctx.case(desc)
+                with guard('lstsq', desc, 'masked'):
+                    P.lstsq(mk(modes), data)
+
+
+def kwarg_units(ctx):
+    """Class C, documented non-default keyword: caller-provided (zero-initialised, as _initialize_alphas makes them) work arrays
+    `alphas=` for jacobi_sum_clenshaw, clenshaw_qbfs and clenshaw_q2d; a fresh array per call and one array re-zeroed between calls."""
+    from prysm.polynomials import jacobi, Qbfs, Q2d, jacobi_sum_clenshaw
+    from prysm.polynomials.qpoly import clenshaw_qbfs, clenshaw_q2d
+    rng = case_rng('kwargs')
+    for ucls, u in (('1d', np.array([0.0, 0.21875, 0.53125, 0.84375, 1.0])), ('2d', np.asarray(0.02 + 0.96 * rng.random((2, 3)))), ('0d', np.asarray(0.40625))):
+        work = None
+        for L in (5, 1, 3, 9, 2):
+            c0 = [float(v) for v in rng.normal(size=L)]
+            if work is None or True:
+                work = np.zeros((L, *u.shape))
+            desc = {'fn': 'jacobi_sum_clenshaw', 'len': L, 'x': ucls, 'kw': 'alphas', 'class': f'jacobi_sum_clenshaw:alphas=:{ucls}'}
+            ctx.case(desc)
+            with guard('jacobi_sum_clenshaw', desc, lenclass(L), [lenclass(L)]):
+                got = jacobi_sum_clenshaw(c0, 0.25, -0.25, 2 * u - 1, alphas=work)
+                with quiet():
+                    ref, scale = explicit_sum(c0, lambda k: jacobi(k, 0.25, -0.25, 2 * u - 1))
+                compare('jacobi_sum_clenshaw', got, ref, scale, f'C10/jacobi_sum_clenshaw/alphas=/{lenclass(L)}', 'jacobi_sum_clenshaw(alphas=work) != explicit sum', desc)
+            work = np.zeros((L, *u.shape))
+            desc = {'fn': 'clenshaw_qbfs', 'len': L, 'x': ucls, 'kw': 'alphas', 'class': f'clenshaw_qbfs:alphas=:{ucls}'}
+            ctx.case(desc)
+            with guard('clenshaw_qbfs', desc, lenclass(L), [lenclass(L)]):
+                got = clenshaw_qbfs(c0, u * u, alphas=work)
+                with quiet():
+                    ref, scale = explicit_sum(c0, lambda k: Qbfs(k, u))
+                compare('clenshaw_qbfs', got, ref, scale, f'C10/clenshaw_qbfs/alphas=/{lenclass(L)}', 'clenshaw_qbfs(alphas=work) != explicit sum', desc)
+            for m in (1, 2):
+                work = np.zeros((L, *u.shape))
+                desc = {'fn': 'clenshaw_q2d', 'len': L, 'm': m, 'x': ucls, 'kw': 'alphas', 'class': f'clenshaw_q2d:alphas=:{ucls}'}
+                ctx.case(desc)
+                with guard('clenshaw_q2d', desc, lenclass(L), ['list-len1'] if L == 1 else []):
+                    al = clenshaw_q2d(c0, m, u * u, alphas=work)
+                    S = 0.5 * al[0]
+                    if m == 1 and L > 3:
+                        S = S - 2 / 5 * al[3]
+                    with quiet():
+                        ref, scale = explicit_sum(c0, lambda k: Q2d(k, m, u, np.zeros(u.shape)))
+                    compare('compute_z_zprime_Q2d.sag', S * u ** m, ref, scale, f'C10/clenshaw_q2d/alphas=/{lenclass(L)}', 'clenshaw_q2d(alphas=work) != explicit sum', desc)
+
+
+def high_units(ctx, lens):
+    """Class D: sums far longer than any plausible internal table."""
+    rng = case_rng('high')
+    PT = paths()
+    u = np.array([0.0, 0.21875, 0.53125, 0.84375, 1.0])
+    for L in lens:
+        c0 = [float(v) for v in rng.normal(size=L)]
+        sp = [0.0] * L
+        sp[-1] = 1.5
+        sp[L // 2] = -0.75
+        for label, (fast, mode, az) in PT.items():
+            if L > 60 and label.startswith('compute_z_zprime_Q2d:b'):
+                continue
+            for cl, cc in (('dense', c0), ('sparse', sp)):
+                desc = {'fn': fn_of(label), 'path': label, 'len': L, 'coefs': cl, 'class': f'{fn_of(label)}:long-sum:{cl}'}
+                ctx.case(desc)
+                path_check(ctx, label, fast, mode, np.array(cc) if L % 2 else cc, cc, u, u, desc, lenclass(L))
+
+
+def repeat_lstsq(ctx):
+    """Class A for lstsq / sum_of_2d_modes: the same mode stack, data array and coefficient vector objects used again and again
+    (fit, synthesise, fit the synthesis, ...); arguments must be left intact; every call is judged by the contracts."""
+    from prysm import polynomials as P
+    rng = case_rng('repeat-lstsq')
+    for shape, kind in (((8, 9), 'zernike'), ((16, 1), 'single'), ((2, 40), 'legendre-xy'), ((1, 24), 'legendre-xy'), ((12, 12), 'q2d')):
+        with quiet():
+            modes = np.asarray(basis(rng, kind, shape), dtype=float)
+        k = modes.shape[0]
+        c = rng.normal(size=k)
+        data = np.tensordot(c, modes, axes=(0, 0))
+        data[rng.random(shape) < 0.1] = np.nan
+        m0, d0 = modes.copy(), data.copy()
+        cref, ok, cond, A, b = ls_oracle(modes, data)
+        desc = {'fn': 'lstsq', 'basis': kind, 'shape': shape, 'class': f'lstsq:repeat:{"1xN" if 1 in shape else "2d"}'}
+        ctx.case(desc)
+        if not ok or cond > 1e6:
+            ctx.skip('lstsq:rank-deficient-or-ill-conditioned-on-valid-samples')
+            continue
+        with guard('lstsq', desc, 'masked'):
+            for it in range(3):
+                chat = P.lstsq(modes, data)
+                ctx.close('lstsq.recovers-synthesis', chat, c, 'C10/lstsq/recovers-synthesis/repeated-call', 'lstsq on the same objects again != c', desc,
+                          rtol=1e-8 * max(cond, 1.0), atol=1e-300, scale=sup(c))
+                back = P.sum_of_2d_modes(modes, chat)
+                P.lstsq(modes, back)
+            ctx.require('alias.arguments-intact', np.array_equal(modes, m0) and np.array_equal(data, d0, equal_nan=True), 'C10/arguments-modified/lstsq-or-sum_of_2d_modes',
+                        'lstsq / sum_of_2d_modes modified the mode stack or the data array it was given', desc)
+
+
+def run_hardening(ctx, counter):
+    def mine():
+        counter[0] += 1
+        return ctx.mine(counter[0])
+    for v in HIST_VARIANTS:
+        if mine():
+            history_units(ctx, v)
+    for fn in (alias_coefs, container_units, layout_units, cfg32_units, kwarg_units, repeat_lstsq):
+        if mine():
+            fn(ctx)
+    for lens in ctx.pick([(19,), (41,), (60,)], [(19, 41), (60, 80), (100,), (150,)]):
+        if mine():
+            high_units(ctx, lens)
+
+
 def run(ctx):
     global CTX
     CTX = ctx
     install()
     try:
         counter = [-1]
+        run_hardening(ctx, counter)
         run_jacobi(ctx, counter)
         run_qbfs_qcon(ctx, counter)
         run_q2d(ctx, counter)
         run_lstsq(ctx, counter)
         run_pvr(ctx, counter)
-        ctx.note('orders', f'Jacobi/Qbfs/Qcon sums: lengths 1..{ctx.pick(12, 30)}; 2D-Q radial orders to {ctx.pick(12, 30)}, |m| to {ctx.pick(4, 7)}')
+        ctx.note('orders', f'Jacobi/Qbfs/Qcon sums: lengths 1..{ctx.pick(12, 60)} (+ 19, 41, 42, 60 in the quick tier, to 150 in the thorough one); '
+                           f'2D-Q radial orders to {ctx.pick(12, 30)}, |m| to {ctx.pick(4, 7)}')
     finally:
         detach_all()
 
